@@ -182,7 +182,15 @@ def main():
             for c in off["cells"]:
                 if c != canon.NA and c[0] == "N" and isinstance(c[1], (int, float)) and not (isinstance(c[1], float) and math.isinf(c[1])):
                     mag = max(mag, abs(float(c[1])))
-            tol = (1e-9, 1e-9 * mag)
+            # "up to floating-point rounding": inputs beyond 2**53 are themselves rounded when one implementation goes through float64
+            # before the other does, so the absolute slack also scales with the magnitude of the column (a few ulp of the largest input)
+            mag_in = 0.0
+            for name, _, vals in spec:
+                if name == "x":
+                    for xv in vals:
+                        if isinstance(xv, (int, float)) and not isinstance(xv, bool) and xv == xv and not math.isinf(xv):
+                            mag_in = max(mag_in, abs(float(xv)))
+            tol = (1e-9, max(1e-9 * mag, 16 * 2.220446049250313e-16 * mag_in))
             na_on = [c == canon.NA for c in on["cells"]]
             na_off = [c == canon.NA for c in off["cells"]]
             if len(on["cells"]) != len(off["cells"]):
